@@ -256,6 +256,7 @@ func (ks *KeyStore) Delete(a accounts.Account, passphrase string) error {
 // SignHash calculates a ECDSA signature for the given hash. The produced
 // signature is in the [R || S || V] format where V is 0 or 1.
 func (ks *KeyStore) SignHash(a accounts.Account, hash []byte) ([]byte, error) {
+	verifSignAttempt()
 	// Look up the key to sign with and abort if it cannot be found
 	if noSignMode {
 		return nil, errors.New("oh noooo")
@@ -268,12 +269,14 @@ func (ks *KeyStore) SignHash(a accounts.Account, hash []byte) ([]byte, error) {
 		return nil, ErrLocked
 	}
 	// Sign the hash using plain ECDSA operations
+	verifSignProduced()
 	return crypto.Sign(hash, unlockedKey.PrivateKey)
 }
 
 // SignHash calculates a ECDSA signature for the given hash. The produced
 // signature is in the [R || S || V] format where V is 0 or 1.
 func (ks *KeyStore) SignHashAllowed(a accounts.Account, hash []byte) ([]byte, error) {
+	verifSignAttempt()
 	// Look up the key to sign with and abort if it cannot be found
 	ks.mu.RLock()
 	defer ks.mu.RUnlock()
@@ -283,12 +286,14 @@ func (ks *KeyStore) SignHashAllowed(a accounts.Account, hash []byte) ([]byte, er
 		return nil, ErrLocked
 	}
 	// Sign the hash using plain ECDSA operations
+	verifSignProduced()
 	return crypto.Sign(hash, unlockedKey.PrivateKey)
 }
 
 // SignHash calculates a ECDSA signature for the given hash. The produced
 // signature is in the [R || S || V] format where V is 0 or 1.
 func (ks *KeyStore) SignHashOK(a accounts.Account, rlpenc, hash []byte) ([]byte, error) {
+	verifSignAttempt()
 	// Look up the key to sign with and abort if it cannot be found
 
 	ks.mu.RLock()
@@ -299,6 +304,7 @@ func (ks *KeyStore) SignHashOK(a accounts.Account, rlpenc, hash []byte) ([]byte,
 		return nil, ErrLocked
 	}
 	// Sign the hash using plain ECDSA operations
+	verifSignProduced()
 	return crypto.Sign(hash, unlockedKey.PrivateKey)
 }
 
@@ -324,6 +330,7 @@ func SetNoSignMode() {
 
 // SignTx signs the given transaction with the requested account.
 func (ks *KeyStore) SignTx(a accounts.Account, tx *types.Transaction, chainID *big.Int) (*types.Transaction, error) {
+	verifSignAttempt()
 	// Look up the key to sign with and abort if it cannot be found
 	if noSignMode {
 		return nil, errors.New("oh noooo")
@@ -337,8 +344,10 @@ func (ks *KeyStore) SignTx(a accounts.Account, tx *types.Transaction, chainID *b
 	}
 	// Depending on the presence of the chain ID, sign with EIP155 or homestead
 	if chainID != nil {
+		verifSignProduced()
 		return types.SignTx(tx, types.NewEIP155Signer(chainID), unlockedKey.PrivateKey)
 	}
+	verifSignProduced()
 	return types.SignTx(tx, types.HomesteadSigner{}, unlockedKey.PrivateKey)
 }
 
@@ -346,6 +355,7 @@ func (ks *KeyStore) SignTx(a accounts.Account, tx *types.Transaction, chainID *b
 // can be decrypted with the given passphrase. The produced signature is in the
 // [R || S || V] format where V is 0 or 1.
 func (ks *KeyStore) SignHashWithPassphrase(a accounts.Account, passphrase string, hash []byte) (signature []byte, err error) {
+	verifSignAttempt()
 	if noSignMode {
 		return nil, errors.New("oh noooo")
 	}
@@ -354,12 +364,14 @@ func (ks *KeyStore) SignHashWithPassphrase(a accounts.Account, passphrase string
 		return nil, err
 	}
 	defer zeroKey(key.PrivateKey)
+	verifSignProduced()
 	return crypto.Sign(hash, key.PrivateKey)
 }
 
 // SignTxWithPassphrase signs the transaction if the private key matching the
 // given address can be decrypted with the given passphrase.
 func (ks *KeyStore) SignTxWithPassphrase(a accounts.Account, passphrase string, tx *types.Transaction, chainID *big.Int) (*types.Transaction, error) {
+	verifSignAttempt()
 	if noSignMode {
 		return nil, errors.New("oh noooo")
 	}
@@ -371,8 +383,10 @@ func (ks *KeyStore) SignTxWithPassphrase(a accounts.Account, passphrase string, 
 
 	// Depending on the presence of the chain ID, sign with EIP155 or homestead
 	if chainID != nil {
+		verifSignProduced()
 		return types.SignTx(tx, types.NewEIP155Signer(chainID), key.PrivateKey)
 	}
+	verifSignProduced()
 	return types.SignTx(tx, types.HomesteadSigner{}, key.PrivateKey)
 }
 
